@@ -657,6 +657,17 @@ func (ev *evaluator) call(x ECall) *Val {
 	case "ref":
 		a := ev.eval(x.Args[0])
 		return intVal(ev.asRef(a))
+	case "asSlice": // asSlice(ifaceval, "[]T"): the slice boxed in an interface value
+		a := ev.eval(x.Args[0])
+		sv, ok := x.Args[1].(EStr)
+		if !ok || a.S != SIface || !strings.HasPrefix(sv.V, "[]") {
+			return ev.fail("asSlice(iface, \"[]T\")")
+		}
+		et := ev.resolveType(strings.TrimPrefix(sv.V, "[]"))
+		if et == nil {
+			return ev.fail("unknown type %s", sv.V)
+		}
+		return &Val{T: types.NewSlice(et), S: SSlice, Tm: "(unbox_Slice (i_val " + a.Tm + "))"}
 	}
 	// predicate (macro)
 	if p, ok := eng.cs.Preds[x.Fun]; ok {
